@@ -8,6 +8,7 @@ import (
 	"sort"
 	"strconv"
 	"strings"
+	"sync"
 	"time"
 
 	"github.com/multiversx/mx-chain-core-go/data"
@@ -95,10 +96,37 @@ type txSession struct {
 	accts map[string]acct // absent: lookup error
 	bad   map[string]bool // by hash
 	host  *txHost
+	// drift: the session is an external, stateful object — only its FIRST answer per account / per transaction is what the
+	// op line records (and what the model is given); every later answer for the same account differs (other nonce, no
+	// balance, or a lookup error), every later guard verdict is inverted. The code must consult it once per account.
+	drift  bool
+	mu     sync.Mutex
+	asked  map[string]int
+	gasked map[string]int
 }
 
 func (s *txSession) GetAccountState(a []byte) (*types.AccountState, error) {
+	n := 0
+	if s.drift {
+		s.mu.Lock()
+		if s.asked == nil {
+			s.asked = map[string]int{}
+		}
+		n = s.asked[string(a)]
+		s.asked[string(a)]++
+		s.mu.Unlock()
+	}
 	ac, ok := s.accts[string(a)]
+	if n > 0 {
+		switch n % 3 {
+		case 1:
+			return &types.AccountState{Nonce: ac.nonce + 2, Balance: big.NewInt(0)}, nil
+		case 2:
+			return nil, fmt.Errorf("account not found (later answer)")
+		default:
+			return &types.AccountState{Nonce: 0, Balance: bigPow2(100)}, nil
+		}
+	}
 	if !ok {
 		return nil, fmt.Errorf("account not found")
 	}
@@ -106,14 +134,31 @@ func (s *txSession) GetAccountState(a []byte) (*types.AccountState, error) {
 }
 func (s *txSession) IsIncorrectlyGuarded(tx data.TransactionHandler) bool {
 	d := s.host.byPtr[tx.(data.TransactionWithFeeHandler)]
+	if s.drift {
+		s.mu.Lock()
+		if s.gasked == nil {
+			s.gasked = map[string]int{}
+		}
+		n := s.gasked[string(d.hash)]
+		s.gasked[string(d.hash)]++
+		s.mu.Unlock()
+		if n > 0 {
+			return !s.bad[string(d.hash)]
+		}
+	}
 	return s.bad[string(d.hash)]
 }
 func (s *txSession) IsInterfaceNil() bool { return s == nil }
 
+// fresh: the same external session at the start of a NEW SelectTransactions call (first answers again)
+func (s *txSession) fresh() *txSession {
+	return &txSession{accts: s.accts, bad: s.bad, host: s.host, drift: s.drift}
+}
+
 type txCfg struct {
-	chunks                uint32
-	evict                 bool
-	nb, nbs, c, cs, n     uint32
+	chunks            uint32
+	evict             bool
+	nb, nbs, c, cs, n uint32
 }
 
 type txRunner struct {
@@ -123,8 +168,8 @@ type txRunner struct {
 	cache   *txcache.TxCache
 	host    *txHost
 	defs    map[string]*txDef
-	order   []string // hashes in definition order
-	senders [][]byte // sorted distinct senders of the table
+	order   []string        // hashes in definition order
+	senders [][]byte        // sorted distinct senders of the table
 	f3      map[string]bool // senders left above the byte limit by an incomplete trim (known finding F3)
 }
 
@@ -601,6 +646,8 @@ func (r *txRunner) parseSession(tok []string) (*txSession, [][]*txDef, bool) {
 			s.accts[string(unhx(p[1]))] = acct{nonce: atou(p[2]), balance: b}
 		case strings.HasPrefix(t, "bad:"):
 			s.bad[string(unhx(t[4:]))] = true
+		case t == "drift":
+			s.drift = true
 		case strings.HasPrefix(t, "b:"):
 			has = true
 			var l []*txDef
@@ -783,7 +830,7 @@ func (r *txRunner) execSel(tok []string, line string) (string, string) {
 	}
 	pre := r.observe(r.cache)
 	preDump := r.dump(pre)
-	txs, acc := r.cache.SelectTransactions(s, gas, maxNum, dur)
+	txs, acc := r.cache.SelectTransactions(s.fresh(), gas, maxNum, dur)
 	post := r.observe(r.cache)
 	if r.dump(post) != preDump {
 		r.add("C03", "pool-changed-by-selection", where)
@@ -797,7 +844,7 @@ func (r *txRunner) execSel(tok []string, line string) (string, string) {
 		r.tag("sel-empty")
 	}
 	// C03: repeatable
-	txs2, acc2 := r.cache.SelectTransactions(s, gas, maxNum, dur)
+	txs2, acc2 := r.cache.SelectTransactions(s.fresh(), gas, maxNum, dur)
 	if selOut(txs2, acc2) != out {
 		r.add("C03", "not-repeatable", where)
 	}
@@ -810,21 +857,21 @@ func (r *txRunner) execSel(tok []string, line string) (string, string) {
 		// C03: prefix under lowered limits / time budget
 		if len(txs) > 0 {
 			lower := len(txs) - 1
-			t3, _ := r.cache.SelectTransactions(s, gas, lower, dur)
+			t3, _ := r.cache.SelectTransactions(s.fresh(), gas, lower, dur)
 			if len(t3) > len(txs) || selOut(t3, 0) != selOut(txs[:len(t3)], 0) || len(t3) != lower {
 				r.add("C03", "prefix-maxnum", where)
 			}
 			if acc > 0 {
-				t4, _ := r.cache.SelectTransactions(s, acc-1, maxNum, dur)
+				t4, _ := r.cache.SelectTransactions(s.fresh(), acc-1, maxNum, dur)
 				if len(t4) > len(txs) || selOut(t4, 0) != selOut(txs[:len(t4)], 0) {
 					r.add("C03", "prefix-gas", where)
 				}
 			}
-			t5, _ := r.cache.SelectTransactions(s, gas, maxNum, -1)
+			t5, _ := r.cache.SelectTransactions(s.fresh(), gas, maxNum, -1)
 			if len(t5) > len(txs) || selOut(t5, 0) != selOut(txs[:len(t5)], 0) {
 				r.add("C03", "prefix-time", where)
 			}
-			t6, _ := r.cache.SelectTransactions(s, gas, maxNum, time.Nanosecond)
+			t6, _ := r.cache.SelectTransactions(s.fresh(), gas, maxNum, time.Nanosecond)
 			if len(t6) > len(txs) || selOut(t6, 0) != selOut(txs[:len(t6)], 0) {
 				r.add("C03", "prefix-time", where)
 			}
@@ -868,7 +915,7 @@ func (r *txRunner) execSelPerm(tok []string) string {
 	for _, sn := range r.senders {
 		all = append(all, pre.lists[string(sn)]...)
 	}
-	txs, acc := r.cache.SelectTransactions(s, gas, maxNum, time.Hour)
+	txs, acc := r.cache.SelectTransactions(s.fresh(), gas, maxNum, time.Hour)
 	base := selOut(txs, acc)
 	rng := rand.New(rand.NewSource(seed))
 	saved := r.cfg
@@ -881,7 +928,7 @@ func (r *txRunner) execSelPerm(tok []string) string {
 		for _, j := range perm {
 			c.AddTx(r.wrap(all[j]))
 		}
-		t2, a2 := c.SelectTransactions(s, gas, maxNum, time.Hour)
+		t2, a2 := c.SelectTransactions(s.fresh(), gas, maxNum, time.Hour)
 		if selOut(t2, a2) != base {
 			r.add("C03", "order-or-chunk-dependence", fmt.Sprintf("selperm variant %d chunks=%d: %s vs %s", i, ch, selOut(t2, a2), base))
 		}
@@ -1203,6 +1250,9 @@ func genTxHistory(rng *rand.Rand, steps int, idx int) []string {
 	easy := false
 	genSession := func() string {
 		var sb strings.Builder
+		if rng.Intn(4) == 0 {
+			sb.WriteString(" drift")
+		}
 		if easy {
 			// a benign session: every account resolves, nonce 0, rich; at most one hazard
 			for _, a := range accounts {
